@@ -186,6 +186,21 @@ def run(tier: str) -> int:
         h = dict(p)
         h['End-Use Efficiency Factor'] = repr(e / 2)
         L.add('C11_eff', 'scaled', lambda r_: r_['out']['lcoh'], [(1.0, gen.to_text(p)), (2.0, gen.to_text(h))], {'relation': 'efficiency / 2', 'base': f'heat{k}'})
+    # an end-use option restated next to a plant type of another kind (both accepted; the end-use option decides what is sold):
+    # prices must still reach the value measures of the product that is sold
+    for k in range(8 if tier == 'quick' else 48):
+        eu, pt = [(2, 1), (2, 2), (2, 3), (2, 4), (1, 9), (2, 1), (31, 9), (2, 4)][k % 8]
+        p = gen.base(rng, rng.choice([4, 3]), eu, pt, (k % 3) + 1, lifetime=rng.choice([10, 20]), steps=2)
+        gen.add_prices(p, rng)
+        d = rng.choice([0.01, 0.03, 0.08])
+        up = dict(p)
+        for prod in ('Electricity', 'Heat', 'Cooling'):
+            up[f'Starting {prod} Sale Price'] = repr(float(p[f'Starting {prod} Sale Price']) + d)
+            up[f'Ending {prod} Sale Price'] = repr(float(p[f'Ending {prod} Sale Price']) + d)
+        rungs = [(0.0, gen.to_text(p)), (d, gen.to_text(up))]
+        meta = {'relation': 'prices + delta', 'base': f'mixed{k}:eu{eu}-pt{pt}'}
+        L.add('C11_price_lc', 'equal', LC, rungs, dict(meta))
+        L.add('C11_price_npv', 'same_direction', lambda r_: r_['out']['npv'], rungs, dict(meta), precondition=sold_energy_positive)
     counts = L.run(res)
     res.cov['clauses_and_skips'] = counts
     for need in ('C11_homog', 'C11_price_lc', 'C11_price_npv', 'C11_null_addon', 'C11_zero_itc', 'C11_zero_grant', 'C11_eff'):
